@@ -19,8 +19,10 @@ IsNum(v) == v.t = "num"
 IsInf(v) == v.t \in {"oo", "noo", "zoo"}
 
 ExM4(re, im, pi, ip) ==
-    MAdd(MAdd(MFromRat(re), MMul(MI, MFromRat(im))),
-         MMul(CPI, MAdd(MFromRat(pi), MMul(MI, MFromRat(ip)))))
+    LET a == IF im = R0 THEN MFromRat(re) ELSE MAdd(MFromRat(re), MMul(MI, MFromRat(im)))
+    IN IF pi = R0 /\ ip = R0 THEN a
+       ELSE MAdd(a, MMul(CPI, IF ip = R0 THEN MFromRat(pi)
+                              ELSE MAdd(MFromRat(pi), MMul(MI, MFromRat(ip)))))
 \* exact constructor: residues derived from the exact part
 VEx4(re, im, pi, ip, fl) ==
     IF ~RDef(re) \/ ~RDef(im) \/ ~RDef(pi) \/ ~RDef(ip) THEN VUndef
@@ -108,7 +110,7 @@ VMul(a, b) ==
                   i == IF IsNum(a) THEN b ELSE a      \* the infinity
                   s == RealSign(f)
               IN IF ExactZero(f) THEN VNAN
-                 ELSE IF i.t = "zoo" THEN (IF Exact(f) THEN VZOO ELSE VUndef)
+                 ELSE IF i.t = "zoo" THEN (IF s \in {-1, 1} THEN VZOO ELSE VUndef)
                  ELSE IF s = 1 THEN i
                  ELSE IF s = -1 THEN VNeg(i)
                  ELSE VUndef
